@@ -49,6 +49,13 @@ var c19Funcs = []c19Fn{
 	{"auth/api/iam/openid4vp.go", "Wrapper", "getPresentationDefinitionFromRequest"},
 	{"auth/client/iam/client.go", "HTTPClient", "PresentationDefinition"},
 	{"auth/client/iam/client.go", "", "checkNoNullEntries"},
+	{"vcr/pe/presentation_definition.go", "PresentationDefinition", "Match"},
+	{"vcr/pe/presentation_definition.go", "PresentationDefinition", "matchBasic"},
+	{"vcr/pe/presentation_definition.go", "PresentationDefinition", "matchSubmissionRequirements"},
+	{"vcr/pe/presentation_submission.go", "PresentationSubmission", "Validate"},
+	{"vcr/pe/presentation_submission.go", "PresentationSubmission", "Resolve"},
+	{"vcr/pe/presentation_submission.go", "PresentationSubmissionBuilder", "Build"},
+	{"discovery/module.go", "Module", "Search"},
 	{"vcr/revocation/statuslist2021_verifier.go", "StatusList2021", "Verify"},
 	{"vcr/revocation/statuslist2021_verifier.go", "StatusList2021", "statusList"},
 	{"vcr/revocation/statuslist2021_verifier.go", "StatusList2021", "update"},
@@ -79,6 +86,10 @@ var c19Funcs = []c19Fn{
 	{"vdr/didnuts/validators.go", "verificationMethodValidator", "Validate"},
 	{"vdr/didnuts/validators.go", "verificationMethodValidator", "verifyThumbprint"},
 	{"vdr/didnuts/ambassador.go", "ambassador", "findKeyByThumbprint"},
+	{"vdr/didnuts/ambassador.go", "ambassador", "callback"},
+	{"vdr/didnuts/validators.go", "nilEntryValidator", "Validate"},
+	{"vdr/didnuts/validators.go", "", "NetworkDocumentValidator"},
+	{"vdr/resolver/nullentries.go", "", "RejectNullKeyEntries"},
 	{"network/transport/v2/handlers.go", "protocol", "Handle"},
 	{"network/transport/v2/handlers.go", "protocol", "handle"},
 	{"network/transport/v2/handlers.go", "protocol", "handleTransactionPayload"},
@@ -228,6 +239,11 @@ func c19Ops(fd *ast.FuncDecl) []string {
 			}
 			expr(x.Fun, false)
 			exprs(x.Args, false)
+			// calls of the guards that earlier repairs introduced: removing one re-opens a crash
+			switch fn := c19Expr(x.Fun); fn {
+			case "resolver.RejectNullKeyEntries", "checkNoNullEntries", "checkPublicKey", "pe.ParsePresentationDefinition", "presentationDefinition.checkNoNilEntries":
+				add("guardcall", fn)
+			}
 			if c19Expr(x.Fun) == "panic" {
 				add("panic", c19Expr(x))
 			}
@@ -236,6 +252,10 @@ func c19Ops(fd *ast.FuncDecl) []string {
 				if kv, ok := el.(*ast.KeyValueExpr); ok {
 					expr(kv.Value, false)
 				} else {
+					// elements that are themselves literals of a named type (e.g. the validators NetworkDocumentValidator chains, in order)
+					if cl, ok := el.(*ast.CompositeLit); ok && cl.Type != nil {
+						add("lit", c19Expr(cl))
+					}
 					expr(el, false)
 				}
 			}
@@ -351,7 +371,13 @@ func c19Ops(fd *ast.FuncDecl) []string {
 			expr(x.Call, false)
 			add("go", c19Expr(x.Call))
 		case *ast.LabeledStmt:
+			add("label", x.Label.Name)
 			stmt(x.Stmt)
+		case *ast.BranchStmt:
+			// labelled continue/break/goto decide how often a loop body contributes (one result per outer element, …)
+			if x.Label != nil {
+				add("branch", x.Tok.String()+" "+x.Label.Name)
+			}
 		case *ast.SelectStmt:
 			add("select", "")
 			stmt(x.Body)
